@@ -390,6 +390,240 @@ def check_session(ctx, d, workdir):
 
 
 # ---------------------------------------------------------------------------
+# pairing by name: column gathers of CellByGeneMatrix (unit) and aimed
+# query column orders on whole runs
+# ---------------------------------------------------------------------------
+
+def check_downsample(ctx, d):
+    """d: kind=downsample, X (rows), genes, all (first selection), sel
+    (second selection, subset of all), label.  The gather by gene name of
+    CellByGeneMatrix.downsample_genes / downsample_genes_in_place against an
+    independent by-name gather (dict lookup per value)."""
+    from cell_type_mapper.cell_by_gene.cell_by_gene import CellByGeneMatrix
+    X = np.array(d['X'], dtype=float)
+    genes, allm, sel = list(d['genes']), list(d['all']), list(d['sel'])
+    col = {g: j for j, g in enumerate(genes)}
+    ctx.count('downsample:' + d.get('label', 'replay'))
+    ctx.case(ckey({k: d[k] for k in ('X', 'genes', 'all', 'sel')}, 'ds')
+             if len(sel) >= 3 else None, sample=None)
+
+    def gather(names):
+        return [[float(row[col[g]]) for g in names] for row in X]
+
+    fails = []
+    try:
+        m = CellByGeneMatrix(data=X.copy(), gene_identifiers=list(genes),
+                             normalization='log2CPM')
+        a = m.downsample_genes(selected_genes=list(allm))
+        if a.gene_identifiers != allm or \
+                np.array(a.data).tolist() != gather(allm):
+            fails.append(('downsample_genes', allm, np.array(a.data).tolist(),
+                          gather(allm)))
+        b = a.downsample_genes(selected_genes=list(sel))
+        if b.gene_identifiers != sel or \
+                np.array(b.data).tolist() != gather(sel):
+            fails.append(('downsample_genes(second stage)', sel,
+                          np.array(b.data).tolist(), gather(sel)))
+        m2 = CellByGeneMatrix(data=X.copy(), gene_identifiers=list(genes),
+                              normalization='log2CPM')
+        m2.downsample_genes_in_place(list(sel))
+        if m2.gene_identifiers != sel or \
+                np.array(m2.data).tolist() != gather(sel):
+            fails.append(('downsample_genes_in_place', sel,
+                          np.array(m2.data).tolist(), gather(sel)))
+        impl_node = np.array(b.data).tolist()
+    except Exception as e:      # noqa
+        ctx.violation('C08/paired/downsample-raises',
+                      'down-selecting listed genes raises %r' % (e,), d)
+        return
+    if fails:
+        f = fails[0]
+        ctx.violation('C08/paired/values-by-name',
+                      '%s(%r) returns %r; the columns of those genes are %r'
+                      % (f[0], f[1], f[2][:2], f[3][:2]), d)
+        return
+    if ctx.driver_ok:
+        ids = {g: j for j, g in enumerate(sorted(genes))}
+        out = ctx.model('norm.node', {
+            'X': [[[int(v), 1] for v in row] for row in X.tolist()],
+            'width': len(genes), 'genes': [ids[g] for g in genes],
+            'norm': 'log2CPM', 'allMarkers': [ids[g] for g in allm],
+            'nodeMarkers': [ids[g] for g in sel]})
+        model = out['node'].get('ok')
+        if model is None or [[n_ / d_ for n_, d_ in row] for row in model] \
+                != impl_node:
+            ctx.disagreements_checked += 1
+            ctx.violation('C08/correspondence/downsample',
+                          'correspondence norm.node no longer checks',
+                          dict(d, model=out['node'],
+                               broken='correspondence CTM.Normalize.nodeData '
+                                      '~ CellByGeneMatrix.downsample_genes'),
+                          found_input=False)
+
+
+def gen_downsample(rng, i):
+    """column orders aimed at gathers that could be mistaken for a slice"""
+    n = rng.randint(1, 3)
+    g = rng.randint(5, 12)
+    genes = ['G%d' % j for j in rng.sample(range(60), g)]
+    X = [[float(1 + r * 100 + j) for j in range(g)] for r in range(n)]
+    k = rng.randint(3, min(6, g))
+    i0 = rng.randint(0, g - k)
+    block = list(range(i0, i0 + k))
+    fam = ['block-interior-permuted', 'block-reversed', 'block-stride',
+           'block-interior-outside', 'block-rotated', 'random',
+           'identity-block'][i % 7]
+    if fam == 'block-interior-permuted':
+        mid = block[1:-1]
+        for _ in range(10):
+            rng.shuffle(mid)
+            if mid != block[1:-1]:
+                break
+        idx = [block[0]] + mid + [block[-1]]
+    elif fam == 'block-reversed':
+        idx = block[::-1]
+    elif fam == 'block-stride':
+        idx = list(range(i0 % 2, g, 2))[:k]
+        if rng.random() < 0.5:
+            idx = idx[::-1]
+    elif fam == 'block-interior-outside':
+        outside = [j for j in range(g) if j not in block]
+        idx = list(block)
+        if outside:
+            idx[rng.randint(1, k - 2)] = rng.choice(outside)
+    elif fam == 'block-rotated':
+        r = rng.randint(1, k - 1)
+        idx = block[r:] + block[:r]
+    elif fam == 'random':
+        idx = rng.sample(range(g), k)
+    else:
+        idx = block
+    sel = [genes[j] for j in idx]
+    # first stage: all markers = sel plus a few others, in query order or not
+    others = [x for x in genes if x not in sel]
+    allm = sel + rng.sample(others, rng.randint(0, len(others)))
+    if rng.random() < 0.7:
+        allm.sort(key=genes.index)          # as all_query_markers is
+    else:
+        rng.shuffle(allm)
+    return {'kind': 'downsample', 'X': X, 'genes': genes, 'all': allm,
+            'sel': sel, 'label': fam}
+
+
+def aimed_column_order(rng, case, exp):
+    """a query gene order in which, for one consulted parent, the marker
+    columns form a contiguous block (among the marker columns of the query)
+    whose endpoints are the parent's first and last marker in reference order
+    and whose interior is NOT in reference order.  None if impossible."""
+    rpos = {g: j for j, g in enumerate(case['R'])}
+    allm = set()
+    for s_ in exp['spec'].values():
+        allm |= s_
+    cands = [p for p, s_ in exp['spec'].items() if len(s_) >= 3]
+    rng.shuffle(cands)
+    for p in cands:
+        ms = sorted(exp['spec'][p], key=lambda g: rpos[g])
+        k = len(ms)
+        if k >= 4:
+            mid = ms[1:-1]
+            for _ in range(10):
+                rng.shuffle(mid)
+                if mid != ms[1:-1]:
+                    break
+            if mid == ms[1:-1]:
+                continue
+            block = [ms[0]] + mid + [ms[-1]]
+        else:
+            extra = sorted(allm - set(ms))
+            if not extra:
+                continue
+            block = [ms[0], rng.choice(extra), ms[2]]
+        rest = [g for g in case['Q'] if g not in block]
+        rng.shuffle(rest)
+        a = rng.randint(0, len(rest))
+        return rest[:a] + block + rest[a:], p
+    return None, None
+
+
+def check_pairing_pipeline(ctx, case, label):
+    """two whole runs of the same cells: query columns in reference-like
+    order vs the aimed order (columns moved together with their names);
+    the results must be byte-equal (raw integer counts)."""
+    tree = case['tree']
+    eff_tree, eff_entries = effective(case, None, case['flatten'])
+    ecase = dict(case)
+    ecase['tree'], ecase['entries'] = eff_tree, eff_entries
+    exp = mu.expectation(ecase)
+    if exp['must_fail'] or exp['may_fail']:
+        ctx.count('pairing:skipped-error-case')
+        return
+    order_b, parent = aimed_column_order(ctx.rng, case, exp)
+    if order_b is None:
+        ctx.count('pairing:skipped-no-block')
+        return
+    rpos = {g: j for j, g in enumerate(case['R'])}
+    order_a = sorted(case['Q'], key=lambda g: (rpos.get(g, 10 ** 6), g))
+    X = np.array(case['X'])
+    qcol = {g: j for j, g in enumerate(case['Q'])}
+    outs = []
+    with pipeline.workdir('ctmverif_c08p_') as d:
+        leaves = list(tree[tree['hierarchy'][-1]].keys())
+        stats = pipeline.write_stats_file(
+            d / 'stats.h5', tree, case['R'],
+            {l: np.array(case['leaf_mean'][l]) * 2 for l in leaves},
+            {l: 2 for l in leaves})
+        mpath = d / 'markers.json'
+        mpath.write_text(json.dumps(mu.lookup_dict(case['entries'])))
+        for tag, order in (('a', order_a), ('b', order_b)):
+            q = pipeline.write_h5ad(d / ('query_%s.h5ad' % tag),
+                                    X[:, [qcol[g] for g in order]],
+                                    case['cells'], order)
+            out = d / ('out_' + tag)
+            tmp = d / ('tmp_' + tag)
+            out.mkdir()
+            tmp.mkdir()
+            cfg = pipeline.mapping_config(
+                q, stats, mpath, out, tmp, n_processors=2, chunk_size=3,
+                bootstrap_factor=case['bootstrap_factor'],
+                bootstrap_iteration=5, rng_seed=case['rng_seed'],
+                min_markers=case['m'], flatten=case['flatten'], csv=False)
+            res = pipeline.run_mapping(cfg)
+            txt = None if res['ok'] else str(res['error'])[:300]
+            res['error'] = None
+            with pipeline.quiet():
+                gc.collect()
+            outs.append((res['ok'], txt, (res['json'] or {}).get('results')))
+    ctx.traces += 2
+    ctx.count('pairing:' + label)
+    detail = {'kind': 'pairing', 'label': label, 'case': case,
+              'order_a': order_a, 'order_b': order_b,
+              'parent': None if parent is None else list(parent)}
+    ctx.case(ckey({'o': order_b, 'e': case['entries'], 'Q': case['Q']}, 'pp'),
+             sample={'kind': 'pairing', 'parent': detail['parent'],
+                     'order_b': order_b[:8]})
+    (ok_a, err_a, ra), (ok_b, err_b, rb) = outs
+    if not ok_a:
+        ctx.violation('C08/errors/rejected-valid/'
+                      + mu.classify_error(RuntimeError(err_a)).split(':')[0],
+                      'run with a valid table fails: %s' % err_a, detail)
+        return
+    if not ok_b:
+        ctx.violation('C08/pipeline/pairing/variant-fails',
+                      'the same cells with the query columns reordered '
+                      '(names moved along) fail: %s' % err_b, detail)
+        return
+    if json.dumps(ra, sort_keys=True) != json.dumps(rb, sort_keys=True):
+        n_diff = sum(1 for x, y in zip(ra, rb) if x != y)
+        ctx.violation(
+            'C08/pipeline/pairing/column-order-changes-result',
+            'query and reference values are not paired by name: %d of %d '
+            'cells map differently when the marker columns of %s form a '
+            'block with permuted interior %r' % (n_diff, len(ra),
+                                                 mu.key_str(parent), order_b),
+            detail)
+
+
+# ---------------------------------------------------------------------------
 # pipeline level
 # ---------------------------------------------------------------------------
 
@@ -724,6 +958,22 @@ def run(ctx):
                                          for j in range(300 - len(case['R']))]
                 check_unit(ctx, case, 'huge_query', d, metamorphic=False,
                            use_model=False)
+    n_ds = 140 if ctx.tier == 'quick' else 1400
+    for i in range(n_ds):
+        check_downsample(ctx, gen_downsample(rng, i))
+    n_pair = 8 if ctx.tier == 'quick' else 60
+    done = 0
+    for i in range(n_pair * 6):
+        if done >= n_pair:
+            break
+        c = gen_pipeline_case(rng)
+        c['drop_level'] = None
+        c['flatten'] = (i % 2 == 1)
+        before = ctx.traces
+        check_pairing_pipeline(ctx, c, 'flatten' if c['flatten']
+                               else 'hierarchical')
+        if ctx.traces > before:
+            done += 1
     for i in range(n_pipe):
         if i % 3 == 2:
             check_pipeline(ctx, gen_pipeline_case(rng, aimed_drop=True),
@@ -822,6 +1072,10 @@ def replay(ctx, data, workdir=None):
             check_unit(ctx, d['case'], d.get('label', 'corpus'), workdir)
     elif kind == 'pipeline':
         check_pipeline(ctx, d['case'], d.get('label', 'replay'))
+    elif kind == 'downsample':
+        check_downsample(ctx, d)
+    elif kind == 'pairing':
+        check_pairing_pipeline(ctx, d['case'], d.get('label', 'replay'))
     elif kind == 'session':
         if workdir is None:
             with pipeline.workdir('ctmverif_c08r_') as w:
